@@ -19,7 +19,7 @@ PAYLOADS = [
     ("multi-key-literals", {"properties": {"o": {"default": {"b": 1, "a": 2, "c": {"z": 0, "y": 1}}}, "e": {"enum": [{"x": 1, "y": 2, "w": 3}, "s"]}, "c": {"const": {"k2": None, "k1": [1], "k0": True}}}, "default": {"o": {"q": 1, "p": 2}}}),
     ("bare-list", {"properties": {"l": {"type": "array"}, "m": {"type": "array", "items": [{"type": "integer"}, {"type": "string"}]}}}),
 ]
-DESCRIPTIONS = [None, "plain description", 'with "quotes" and \\ backslash', "two\nlines"]
+DESCRIPTIONS = [None, "plain description", 'with "quotes" and \\ backslash', "two\nlines", "trailing newline\n", "  leading blanks", "first\n    indented continuation\n    lines\n", "tab\there ", " "]
 
 
 def obj(payload, title=None, description=None):
